@@ -282,7 +282,8 @@ VideoConfigSigs(F, path, site, vc, first) ==     \* first: first key frame bytes
                : s \in Av1CSigs("C07", site, b, Av1SeqObuBytes(first)) }
         ELSE VpcCSigs("C19", site, b, Vp9Fields(first)) \cup VpcCPlainSigs("C07", site, b, Vp9Fields(first)) \cup VpcCContentSigs("C07", site, b, Vp9Fields(first)))
 
-TrackIdOf(F, t) == F.tracks[t].tid
+TrackIdOf(F, t) == IF t <= Len(F.tracks) THEN F.tracks[t].tid ELSE 0
+TrackEntry(F, k) == IF k <= Len(F.tracks) THEN F.tracks[k].entry ELSE ""      \* total: a damaged file may have fewer tracks
 
 ProgressiveRawSigs(F, cfg, firstKey, hasVideo) ==
     LET vt == "moov.trak0"  at == "moov.trak1"
@@ -310,7 +311,7 @@ ProgressiveRawSigs(F, cfg, firstKey, hasVideo) ==
     \cup NeedRaw(F, vt \o ".mdia.minf.dinf.dref", "progressive/dref", LAMBDA b : FieldTableSigs("C19", "progressive/dref", b, 8, << Fld("version-flags", 0, 4, Zeros(4)), Fld("entry_count", 4, 4, << 0,0,0,1 >>) >>))
     \cup NeedRaw(F, vstsd, "progressive/stsd", LAMBDA b : FieldTableSigs("C19", "progressive/stsd", b, 8, << Fld("version-flags", 0, 4, Zeros(4)), Fld("entry_count", 4, 4, << 0,0,0,1 >>) >>))
     \cup (IF hasVideo THEN
-             (IF F.tracks[1].entry # ent THEN {LSig("C07", "SampleEntry", "progressive/video", ToString(<< "type", F.tracks[1].entry >>))} ELSE
+             (IF TrackEntry(F, 1) # ent THEN {LSig("C07", "SampleEntry", "progressive/video", ToString(<< "type", TrackEntry(F, 1) >>))} ELSE
               NeedRaw(F, vstsd \o "." \o ent, "progressive/" \o ent, LAMBDA b :
                     { IF s[4] \in {"width", "height"} THEN LSig("C07", "SampleEntry", s[3], s[4]) ELSE s
                       : s \in FieldTableSigs("C19", "progressive/" \o ent, b, 78, VisualEntryFields(cfg.w, cfg.h)) })
@@ -324,7 +325,7 @@ ProgressiveRawSigs(F, cfg, firstKey, hasVideo) ==
         \cup NeedRaw(F, at \o ".mdia.hdlr", "progressive/hdlr-audio", LAMBDA b : FieldTableSigs("C19", "progressive/hdlr-audio", b, -1, HdlrFields(SOUN)))
         \cup NeedRaw(F, at \o ".mdia.minf.dinf.dref.url ", "progressive/url-audio", LAMBDA b : FieldTableSigs("C19", "progressive/url-audio", b, 4, << Fld("version-flags", 0, 4, << 0, 0, 0, 1 >>) >>))
         \cup NeedRaw(F, at \o ".mdia.minf.smhd", "progressive/smhd", LAMBDA b : FieldTableSigs("C19", "progressive/smhd", b, 8, << Fld("version-flags", 0, 4, Zeros(4)), Fld("reserved", 6, 2, Zeros(2)) >>))
-        \cup (IF F.tracks[2].entry # aent THEN {LSig("C07", "SampleEntry", "progressive/audio", ToString(<< "type", F.tracks[2].entry >>))} ELSE
+        \cup (IF TrackEntry(F, 2) # aent THEN {LSig("C07", "SampleEntry", "progressive/audio", ToString(<< "type", TrackEntry(F, 2) >>))} ELSE
               NeedRaw(F, astsd \o "." \o aent, "progressive/" \o aent, LAMBDA b :
                     { IF s[4] \in {"channelcount", "samplerate"} THEN LSig("C07", "SampleEntry", s[3], s[4]) ELSE s
                       : s \in FieldTableSigs("C19", "progressive/" \o aent, b, 28,
@@ -404,7 +405,7 @@ RawSigsInit(F, cfg) ==
     \cup NeedRaw(F, "moov.mvex.trex", "init/trex", LAMBDA b : FieldTableSigs("C19", "init/trex", b, 24,
               << Fld("version-flags", 0, 4, Zeros(4)), Fld("track_ID", 4, 4, << 0,0,0,1 >>), Fld("default_sample_description_index", 8, 4, << 0,0,0,1 >>) >>))
     \cup (IF F.tracks = << >> THEN {} ELSE
-          IF F.tracks[1].entry # ent THEN {LSig("C07", "SampleEntry", "init/video", ToString(<< "type", F.tracks[1].entry >>))} ELSE
+          IF TrackEntry(F, 1) # ent THEN {LSig("C07", "SampleEntry", "init/video", ToString(<< "type", TrackEntry(F, 1) >>))} ELSE
           NeedRaw(F, vstsd \o "." \o ent, "init/" \o ent, LAMBDA b :
                 { IF s[4] \in {"width", "height"} THEN LSig("C07", "SampleEntry", s[3], s[4]) ELSE s
                   : s \in FieldTableSigs("C19", "init/" \o ent, b, 78, VisualEntryFields(cfg.w, cfg.h)) })
